@@ -21,9 +21,12 @@ import (
 // see of a special transaction.
 type sideInfo struct {
 	coq    string
-	tx3    []common.Uint256          // hashes the save processor records
-	retdep []common.Uint256          // return-deposit hashes
-	drafts []struct{ h common.Uint256; d []byte }
+	tx3    []common.Uint256 // hashes the save processor records
+	retdep []common.Uint256 // return-deposit hashes
+	drafts []struct {
+		h common.Uint256
+		d []byte
+	}
 }
 
 func (h *H) hid(x common.Uint256) int {
@@ -114,7 +117,8 @@ func (h *H) mixOutputs(special []*ctypes.Output, plain func(k int, v common.Fixe
 
 // Special builds a special transaction of the given kind spending one good
 // output of the view; hashes are the keys it writes.
-//   kinds: withdraw0 withdraw1 withdraw2 retdep proposal review tracking
+//
+//	kinds: withdraw0 withdraw1 withdraw2 retdep proposal review tracking
 func (h *H) Special(kind string, set map[ctypes.OutPoint]uinfo, used map[ctypes.OutPoint]bool, hashes []common.Uint256) interfaces.Transaction {
 	var c *cand
 	for _, x := range sortedCands(set) {
@@ -193,8 +197,18 @@ func (h *H) Special(kind string, set map[ctypes.OutPoint]uinfo, used map[ctypes.
 	case "proposal", "review", "tracking":
 		var ds []string
 		mk := func(x common.Uint256) []byte {
-			d := append([]byte("data-"), h.Rng.Bytes(6)...)
-			si.drafts = append(si.drafts, struct{ h common.Uint256; d []byte }{x, d})
+			d, known := h.draftData[x]
+			if !known || !(h.ShareData || h.Rng.Bool()) { // byte-identical data under a shared hash, or new bytes
+				d = append([]byte("data-"), h.Rng.Bytes(6)...)
+			}
+			if h.draftData == nil {
+				h.draftData = map[common.Uint256][]byte{}
+			}
+			h.draftData[x] = d
+			si.drafts = append(si.drafts, struct {
+				h common.Uint256
+				d []byte
+			}{x, d})
 			ds = append(ds, fmt.Sprintf("(%d,%d)", h.hid(x), h.did(d)))
 			return d
 		}
@@ -204,17 +218,17 @@ func (h *H) Special(kind string, set map[ctypes.OutPoint]uinfo, used map[ctypes.
 			pl := &payload.CRCProposal{ProposalType: payload.Normal, CategoryData: "c", OwnerKey: pubBytes(h), DraftHash: hashes[0],
 				Budgets: []payload.Budget{{Type: payload.Imprest, Stage: 0, Amount: 1}}, Recipient: h.F.Keys[1].Hash, Signature: []byte{1}, CRCouncilMemberSignature: []byte{2}}
 			pl.DraftData = mk(hashes[0])
-			tx, err = h.F.RawTx(ctypes.CRCProposal, payload.CRCProposalVersion01, pl, ins, outs, tag)
+			tx, err = h.F.RawTx(ctypes.CRCProposal, h.draftVersion(payload.CRCProposalVersion, payload.CRCProposalVersion01), pl, ins, outs, tag)
 		case "review":
 			pl := &payload.CRCProposalReview{VoteResult: payload.Approve, OpinionHash: hashes[0], Signature: []byte{1}}
 			pl.OpinionData = mk(hashes[0])
-			tx, err = h.F.RawTx(ctypes.CRCProposalReview, payload.CRCProposalReviewVersion01, pl, ins, outs, tag)
+			tx, err = h.F.RawTx(ctypes.CRCProposalReview, h.draftVersion(payload.CRCProposalReviewVersion, payload.CRCProposalReviewVersion01), pl, ins, outs, tag)
 		case "tracking":
 			pl := &payload.CRCProposalTracking{ProposalTrackingType: payload.Common, OwnerKey: pubBytes(h), OwnerSignature: []byte{1},
 				SecretaryGeneralSignature: []byte{2}, SecretaryGeneralOpinionHash: hashes[0], MessageHash: hashes[len(hashes)-1]}
 			pl.SecretaryGeneralOpinionData = mk(hashes[0])
 			pl.MessageData = mk(hashes[len(hashes)-1])
-			tx, err = h.F.RawTx(ctypes.CRCProposalTracking, payload.CRCProposalTrackingVersion01, pl, ins, outs, tag)
+			tx, err = h.F.RawTx(ctypes.CRCProposalTracking, h.draftVersion(payload.CRCProposalTrackingVersion, payload.CRCProposalTrackingVersion01), pl, ins, outs, tag)
 		}
 		si.coq = "(SDraft " + lib.CoqList(ds) + ")"
 	}
@@ -437,7 +451,8 @@ func (h *H) StoreRandom(steps int) {
 		used := map[ctypes.OutPoint]bool{}
 		var txs []interfaces.Transaction
 		fault := ""
-		for i, n := 0, h.Rng.Intn(4); i < n; i++ {
+		var blockDrafts []common.Uint256
+		for i, n := 0, h.Rng.Intn(5); i < n; i++ {
 			if h.Rng.Chance(45) {
 				if tx := h.genTx(set, used, tip.height); tx != nil {
 					txs = append(txs, tx)
@@ -453,12 +468,23 @@ func (h *H) StoreRandom(steps int) {
 				nh = 2
 			}
 			var hs []common.Uint256
+			isDraft := kind == "proposal" || kind == "review" || kind == "tracking"
+			h.ShareData = false
 			for j := 0; j < nh; j++ {
-				if k := h.KnownHash(); k != nil && h.Rng.Chance(6) {
+				if isDraft && len(blockDrafts) > 0 && h.Rng.Chance(35) {
+					// a key first written by an earlier transaction of THIS block, with byte-identical data
+					hs = append(hs, blockDrafts[h.Rng.Intn(len(blockDrafts))])
+					h.ShareData = true
+					h.kinds["shared-in-block"]++
+				} else if k := h.KnownHash(); k != nil && h.Rng.Chance(6) {
 					hs = append(hs, *k) // deliberately re-used key (excluded class)
 					fault = "reused-key"
 				} else {
-					hs = append(hs, h.NewHash())
+					x := h.NewHash()
+					hs = append(hs, x)
+					if isDraft {
+						blockDrafts = append(blockDrafts, x)
+					}
 				}
 			}
 			if tx := h.Special(kind, set, used, hs); tx != nil {
@@ -725,7 +751,9 @@ func (h *H) CorpusSiblings() {
 	fan, _ := f.Transfer([]fixture.In{{Op: f.GenesisOut, Key: 0}}, []fixture.Out{{Key: 1, Value: 500000}, {Key: 1, Value: 600000}, {Key: 2, Value: 700000}, {Key: 3, Value: 800000}, {Key: 0, Value: total - 2600000 - 100}}, 930000)
 	b2 := h.BuildOn(b1, []interfaces.Transaction{fan}, "", fixture.BlockOpt{Miner: 1})
 	h.Process(b2)
-	P := func(i uint16, k int) fixture.In { return fixture.In{Op: ctypes.OutPoint{TxID: fan.Hash(), Index: i}, Key: k} }
+	P := func(i uint16, k int) fixture.In {
+		return fixture.In{Op: ctypes.OutPoint{TxID: fan.Hash(), Index: i}, Key: k}
+	}
 	vals := []common.Fixed64{500000, 600000, 700000, 800000}
 	keys := []int{1, 1, 2, 3}
 	spend := func(tag uint64, idx ...uint16) interfaces.Transaction {
@@ -763,4 +791,58 @@ func (h *H) CorpusSiblings() {
 		h.Submit(spend(930042, 0, 3), "conflict")
 	}
 	h.Process(h.validBlock(h.tip(), 1))
+}
+
+// draftVersion picks the payload version of a draft-carrying transaction
+// (version 0 does not serialize the data, the processors store it all the same).
+func (h *H) draftVersion(v0, v1 byte) byte {
+	if h.Rng.Chance(30) {
+		return v0
+	}
+	return v1
+}
+
+// CorpusSharedDrafts: blocks whose draft-carrying transactions share
+// byte-identical data (identical hashes) within the block, every ordered pair
+// of {proposal, review, tracking} on one shared key plus two trackings with
+// one opinion and different messages; each block connected, disconnected,
+// re-included in the other transaction order, disconnected.
+func (h *H) CorpusSharedDrafts() {
+	f := h.F
+	total := f.Genesis.Transactions[0].Outputs()[0].Value
+	var outs []fixture.Out
+	for i := 0; i < 12; i++ {
+		outs = append(outs, fixture.Out{Key: i % 4, Value: 600000})
+	}
+	outs = append(outs, fixture.Out{Key: 0, Value: total - 7200000 - 100})
+	fan, _ := f.Transfer([]fixture.In{{Op: f.GenesisOut, Key: 0}}, outs, 940000)
+	b1 := h.BuildOn(h.GenesisBlk(), []interfaces.Transaction{fan}, "", fixture.BlockOpt{Miner: 1})
+	h.StoreSave(b1)
+	kinds := []string{"tracking", "review", "proposal"}
+	for _, k1 := range kinds {
+		for _, k2 := range kinds {
+			set, _, _ := h.view(h.StoreTip())
+			used := map[ctypes.OutPoint]bool{}
+			shared := h.NewHash()
+			keys := func(k string) []common.Uint256 {
+				if k == "tracking" {
+					return []common.Uint256{shared, h.NewHash()} // shared opinion, own message
+				}
+				return []common.Uint256{shared}
+			}
+			h.ShareData = true
+			t1 := h.Special(k1, set, used, keys(k1))
+			t2 := h.Special(k2, set, used, keys(k2))
+			h.ShareData = false
+			if t1 == nil || t2 == nil {
+				continue
+			}
+			h.Note("corpus: %s and %s share one draft key with identical data in one block", k1, k2)
+			h.StoreSave(h.BuildOn(h.StoreTip(), []interfaces.Transaction{t1, t2}, "", fixture.BlockOpt{Miner: 2}))
+			h.StoreRollback()
+			h.StoreSave(h.BuildOn(h.StoreTip(), []interfaces.Transaction{t2, t1}, "", fixture.BlockOpt{Miner: 3}))
+			h.StoreRollback()
+		}
+	}
+	h.StoreRollback()
 }
